@@ -425,27 +425,20 @@ func (m *Manager) FlushMemTables() error {
 	// Track operation
 	m.stats.TrackOperation(stats.OpFlush)
 
-	// If no immutable MemTables, flush the active one if needed
+	// If no immutable MemTables, flush the active one if needed. The active
+	// table is first switched out under the write lock: it must not receive
+	// writes while it is written out (a batch that is being applied would be
+	// flushed halfway), and later writes go to a fresh table.
+	m.mu.Lock()
 	if len(m.immutableMTs) == 0 {
 		tables := m.memTablePool.GetMemTables()
-		if len(tables) > 0 && tables[0].ApproximateSize() > 0 {
-			// In testing, we might want to force flush the active table too
-			// Create a new WAL file for future writes
-			if err := m.rotateWAL(); err != nil {
-				m.stats.TrackError("wal_rotate_error")
-				return fmt.Errorf("failed to rotate WAL: %w", err)
-			}
-
-			if err := m.flushMemTable(tables[0]); err != nil {
-				m.stats.TrackError("memtable_flush_error")
-				return fmt.Errorf("failed to flush active MemTable: %w", err)
-			}
-
+		if len(tables) == 0 || tables[0].ApproximateSize() == 0 {
+			m.mu.Unlock()
 			return nil
 		}
-
-		return nil
+		m.immutableMTs = append(m.immutableMTs, m.memTablePool.SwitchToNewMemTable())
 	}
+	m.mu.Unlock()
 
 	// Create a new WAL file for future writes
 	if err := m.rotateWAL(); err != nil {
